@@ -15,6 +15,7 @@ import (
 	"os"
 	"path/filepath"
 	"strconv"
+	"sync"
 
 	"github.com/bartossh/Computantis/src/aeswrapper"
 	"github.com/bartossh/Computantis/src/fileoperations"
@@ -38,6 +39,26 @@ func readOutcome(h fileoperations.Helper, orig *wallet.Wallet) (out string) {
 }
 
 // fileMain: drive file <trace.ndjson> <seed> <tier> <scratchdir>
+// nestingSealer runs `inner` once, before (or after) sealing.
+type nestingSealer struct {
+	aeswrapper.Helper
+	inner func()
+	after bool
+}
+
+func (s *nestingSealer) Encrypt(key, data []byte) ([]byte, error) {
+	f := s.inner
+	s.inner = nil
+	if f != nil && !s.after {
+		f()
+	}
+	out, err := s.Helper.Encrypt(key, data)
+	if f != nil && s.after {
+		f()
+	}
+	return out, err
+}
+
 func fileMain(args []string) {
 	if len(args) != 4 {
 		fatal("usage: drive file <trace.ndjson> <seed> <quick|thorough> <scratchdir>")
@@ -73,6 +94,14 @@ func fileMain(args []string) {
 		path := filepath.Join(dir, fmt.Sprintf("wallet_%d", wi))
 		cfg := fileoperations.Config{WalletPath: path, WalletPasswd: hex.EncodeToString(key), WalletPemPath: path + ".pem"}
 		h := fileoperations.New(cfg, aeswrapper.New())
+		if wi%2 == 1 {
+			// the path already holds an older wallet saved with the same key: whatever is damaged afterwards
+			// must be an error, never the older wallet
+			w0, _ := wallet.New()
+			if err := h.SaveWallet(&w0); err != nil {
+				fatal("save: %v", err)
+			}
+		}
 		if err := h.SaveWallet(&w); err != nil {
 			fatal("save: %v", err)
 		}
@@ -152,6 +181,78 @@ func fileMain(args []string) {
 			emit("pem", full, full, 0, true, true, out)
 		} else {
 			emit("pem", full, full, 0, true, true, "error-save")
+		}
+	}
+	// one save nested inside another: a complete SaveWallet of another wallet (other key, other path, other helper)
+	// runs between the encoding and the sealing step of the first one, and between sealing and writing - the
+	// interleavings of two savers at the granularity encode | seal | write. Both files read back as saved.
+	nest := 6
+	if thorough {
+		nest = 60
+	}
+	for r := 0; r < nest; r++ {
+		wa, _ := wallet.New()
+		wb, _ := wallet.New()
+		ka, kb := make([]byte, []int{32, 16}[r%2]), make([]byte, []int{16, 32}[r%2])
+		_, _ = rand.Read(ka)
+		_, _ = rand.Read(kb)
+		pa, pb := filepath.Join(dir, "nest_a"), filepath.Join(dir, "nest_b")
+		hb := fileoperations.New(fileoperations.Config{WalletPath: pb, WalletPasswd: hex.EncodeToString(kb)}, aeswrapper.New())
+		sa := &nestingSealer{Helper: aeswrapper.New(), after: r%2 == 1}
+		sa.inner = func() {
+			if err := hb.SaveWallet(&wb); err != nil {
+				fatal("nested save: %v", err)
+			}
+		}
+		ha := fileoperations.New(fileoperations.Config{WalletPath: pa, WalletPasswd: hex.EncodeToString(ka)}, sa)
+		if err := ha.SaveWallet(&wa); err != nil {
+			fatal("outer save: %v", err)
+		}
+		ba, _ := os.ReadFile(pa)
+		bb, _ := os.ReadFile(pb)
+		emit("intact", len(ba), len(ba), 0, true, true, readOutcome(ha, &wa))
+		emit("intact", len(bb), len(bb), 0, true, true, readOutcome(hb, &wb))
+	}
+	// savers running side by side, each with its own wallet, key, path and helper: every file reads back as the
+	// wallet that was saved into it
+	rounds, savers := 30, 8
+	if thorough {
+		rounds = 200
+	}
+	for r := 0; r < rounds; r++ {
+		type job struct {
+			w    wallet.Wallet
+			h    fileoperations.Helper
+			full int
+			err  error
+		}
+		jobs := make([]*job, savers)
+		start := make(chan struct{})
+		var wg sync.WaitGroup
+		for i := range jobs {
+			w, _ := wallet.New()
+			key := make([]byte, []int{32, 16}[i%2])
+			_, _ = rand.Read(key)
+			path := filepath.Join(dir, fmt.Sprintf("par_%d", i))
+			j := &job{w: w, h: fileoperations.New(fileoperations.Config{WalletPath: path, WalletPasswd: hex.EncodeToString(key)}, aeswrapper.New())}
+			jobs[i] = j
+			wg.Add(1)
+			go func() {
+				defer wg.Done()
+				<-start
+				j.err = j.h.SaveWallet(&j.w)
+				if b, err := os.ReadFile(path); err == nil {
+					j.full = len(b)
+				}
+			}()
+		}
+		close(start)
+		wg.Wait()
+		for _, j := range jobs {
+			if j.err != nil {
+				fatal("concurrent save: %v", j.err)
+			}
+			emit("intact", j.full, j.full, 0, true, true, readOutcome(j.h, &j.w))
 		}
 	}
 	bw.Flush()
